@@ -188,6 +188,9 @@ where
 
         let id = (&self.owner).into();
 
+        #[cfg(sos_verif)]
+        sos_core::verif_probe::hit("db_log_insert:before_tx");
+
         // Insert into the database.
         self.client
             .conn_mut(move |conn| {
@@ -206,6 +209,9 @@ where
             })
             .await
             .map_err(Error::from)?;
+
+        #[cfg(sos_verif)]
+        sos_core::verif_probe::hit("db_log_insert:after_tx");
 
         if delete_before {
             self.tree = CommitTree::new();
